@@ -228,6 +228,53 @@ def unit_fmt(ctx, config, U):
     ctx.ob("unit-fmt", config, ok, "Unit::fmt is %s, expected Display::fmt(symbol, caller's formatter) (or the equivalent formatter.pad(symbol))" % (T.show(t) if t else outs), b["span"])
 
 
+def fmt_override_ok(w, trait, tk, imp):
+    """A type's own `fmt` in place of the trait default: accepted (None) when it is that default specialised to the type
+    — for a unit type: the variant's symbol under string formatting (`Display::fmt(sym, f)` / `f.pad(sym)`, `sym` being
+    `self.symbol()` or a literal equal to the symbol of every variant); for a quantity type all of whose units have
+    an empty symbol: the bare amount under the amount type's own formatting.  Otherwise the reason."""
+    U = w.U
+    it = U.impl_item(imp, "fmt")
+    b = U.body.get(it["path"]) if it else None
+    if b is None:
+        return "no body"
+    try:
+        outs = T.Evaluator(U, keep_tags=False).summarize(b)
+    except T.Unsupported as x:
+        return "outside the analysed fragment: " + x.what
+    if len(outs) != 1 or outs[0][0] or outs[0][1] != "val":
+        return "not a single unconditional call"
+    t = T.canon(outs[0][2])
+    self_, form = S.P(0, "self"), S.P(1, "form")
+    if t[0] != "app":
+        return "not a formatting call"
+    if t[1] == DISPLAY_FMT and len(t[3]) == 2 and t[3][1] == form:
+        x = t[3][0]
+    elif t[1] == "core::fmt::Formatter::<'a>::pad" and len(t[3]) == 2 and t[3][0] == form:
+        x = t[3][1]
+    else:
+        return "body is %s" % T.show(t)
+    if trait == model.T_UNIT:
+        q = next((q for q in w.qtypes if q.unit_path == tk), None)
+        if q is None:
+            return "unknown unit type"
+        if x == T.canon(S.app("Unit::symbol", self_)):
+            return None
+        if x[0] == "str" and all(q.tables["symbol"].get(v) == ("str", x[1]) for v in q.variants):
+            return None
+        return "formats %s, not the unit's symbol" % T.show(x)
+    q = w.by_path.get(tk)
+    if q is None:
+        return "unknown quantity type"
+    if not all(q.tables["symbol"].get(v) == ("str", "") for v in q.variants):
+        return "a quantity type with unit symbols: its formatting is the generic Quantity::fmt's business"
+    if x == self_ and q.kind == "dimless":
+        return None
+    if x == T.canon(S.amount(self_)):
+        return None
+    return "formats %s, not the amount" % T.show(x)
+
+
 def rate_fmt(ctx, config, U):
     path = "<quantities::rate::Rate<TQ, PQ> as core::fmt::Display>::fmt"
     outs, b, _ = G.summarize(U, path, set())
@@ -320,9 +367,51 @@ def forwarders(ctx, config, w):
             if len(imps) != 1:
                 ctx.fail("display-forwarder", inst, "expected exactly one impl Display for %s, found %d" % (ty, len(imps)), q.span)
                 continue
-            opforms.body_form(ctx, "display-forwarder", inst, U, imps[0], "fmt", ("app", fn, ty, (self_, f)))
+            if fn == "Unit::fmt" and unit_display_by_table(U, q, imps[0], self_, f):
+                # not the forwarding call, but per variant exactly what Unit::fmt writes: that variant's symbol under
+                # string formatting
+                ctx.ob("display-forwarder", inst, True, "", imps[0]["span"])
+            else:
+                opforms.body_form(ctx, "display-forwarder", inst, U, imps[0], "fmt", ("app", fn, ty, (self_, f)))
             n += 1
     return n
+
+
+def unit_display_by_table(U, q, imp, self_, f):
+    b = U.item_body(imp, "fmt")
+    if b is None:
+        return False
+    try:
+        outs = T.Evaluator(U, keep_tags=False).summarize(b)
+    except T.Unsupported:
+        return False
+    if len(outs) < 1:
+        return False
+    if len(outs) == 1 and not outs[0][0]:
+        # a single unconditional write: right when the type has one unit and it is that unit's symbol
+        t = T.canon(outs[0][2])
+        if len(q.variants) != 1 or outs[0][1] != "val" or t[0] != "app":
+            return False
+        x = t[3][0] if (t[1] == DISPLAY_FMT and len(t[3]) == 2 and t[3][1] == f) else \
+            t[3][1] if (t[1] == "core::fmt::Formatter::<'a>::pad" and len(t[3]) == 2 and t[3][0] == f) else None
+        return x is not None and x[0] == "str" and x == q.tables["symbol"].get(q.variants[0])
+    seen = set()
+    for (g, k, t) in outs:
+        t = T.canon(t)
+        pos = [a for a, p in g if p and a[0] == "isvar" and a[1] == self_]
+        if k != "val" or len(pos) != 1 or any(a[0] != "isvar" or a[1] != self_ for a, _p in g) or t[0] != "app":
+            return False
+        v = pos[0][2]
+        if t[1] == DISPLAY_FMT and len(t[3]) == 2 and t[3][1] == f:
+            x = t[3][0]
+        elif t[1] == "core::fmt::Formatter::<'a>::pad" and len(t[3]) == 2 and t[3][0] == f:
+            x = t[3][1]
+        else:
+            return False
+        if x != q.tables["symbol"].get(v):
+            return False
+        seen.add(v)
+    return seen == set(q.variants)
 
 
 def single_sign(ctx, config, U, amt):
@@ -429,7 +518,9 @@ def run(ctx):
         for trait, allowed in ((model.T_QUANTITY, {"UnitType", "new", "amount", "unit"}), (model.T_UNIT, {"QuantityType", "iter", "name", "symbol", "si_prefix", "<rpitit>"})):
             for tk, (extra, imp) in G.overrides(ctx, "override", w.U, trait, allowed, trait).items():
                 if "fmt" in extra:
-                    ctx.fail("override", "%s/%s" % (config, tk), "impl overrides the default fmt", imp["span"])
+                    why = fmt_override_ok(w, trait, tk, imp)
+                    ctx.ob("override", "%s/%s" % (config, tk), why is None,
+                           "impl overrides the default fmt with something other than that default specialised to the type (%s)" % why, imp["span"])
     # the generic formatting bodies contain cfg-dependent code: repeat their
     # rules on the no_std builds of both back-ends
     for config in ("f64-nostd", "dec-nostd"):
